@@ -95,23 +95,27 @@ Example null_error_code_invalid env pat_ok fmt_ok :
     (JObj [(S_REQUEST_ID, JStr []); (S_ERROR_CODE, JNull); (S_MESSAGE, JStr [])]) = false.
 Proof. vm_compute. reflexivity. Qed.
 
-(* ------------------------------------------------------------ Option<T> at a site (finding K7b) *)
+(* ------------------------------------------------------------ Option<T> at a site *)
 
-Theorem option_ref_nullable_lost name r : j2oas name (option_ref_schema r) = Ok (ORef r).
+Definition option_ref_oschema (r : str) : oschema :=
+  OItem (mkSData true false false false None None None None []) (KAllOf [ORef r]).
+
+(* the nullable marker beside the reference is kept (finding K7b, repaired by
+   16fe29f: before, the bare reference was published) *)
+Theorem option_ref_published name r : j2oas name (option_ref_schema r) = Ok (option_ref_oschema r).
 Proof. reflexivity. Qed.
 
-(* the published schema accepts null only if the referenced component does:
-   for a struct or an enum it does not, yet None is serialised as null *)
-Theorem option_ref_null_rejected env pat_ok fmt_ok name r o :
-  env r JNull = false -> j2oas name (option_ref_schema r) = Ok o ->
-  valid_oas env pat_ok fmt_ok o JNull = false.
-Proof. intros He [= <-]. exact He. Qed.
-
-(* what the RemoveRefSiblings visitor would have made of it accepts null *)
-Example option_ref_with_visitor_accepts_null env pat_ok fmt_ok r :
-  valid_oas env pat_ok fmt_ok
-    (OItem (mkSData true false false false None None None None []) (KAllOf [ORef r])) JNull = true.
-Proof. reflexivity. Qed.
+(* the body of None, null, is valid for the published schema; any other body
+   is valid exactly when it is valid for the referenced component *)
+Theorem option_ref_accepts env pat_ok fmt_ok name r o :
+  j2oas name (option_ref_schema r) = Ok o ->
+  valid_oas env pat_ok fmt_ok o JNull = true /\
+  forall j, is_null j = false -> valid_oas env pat_ok fmt_ok o j = env r j.
+Proof.
+  rewrite option_ref_published. intros [= <-]. split; [reflexivity|].
+  intros j Hn. cbn [valid_oas option_ref_oschema sd_nullable valid_okind forallb].
+  rewrite Hn, andb_true_r. reflexivity.
+Qed.
 
 (* ------------------------------------------------------------ request bodies *)
 
